@@ -181,6 +181,16 @@ def new_file_model(ctx, template):
 
 def dump_db(path):
     """Sorted dump of every table + integrity pragmas, through an un-instrumented connection."""
+    import sqlite3
+    try:
+        return _dump_db(path)
+    except sqlite3.DatabaseError as e:
+        # a file SQLite cannot read any more (e.g. "database disk image is malformed" after a crash without a journal) is a
+        # finding about the file, not a failure of the harness
+        return {"tables": {"__unreadable__": [[type(e).__name__]]}, "integrity": ["unreadable: " + str(e)[:80]], "fk": []}
+
+
+def _dump_db(path):
     con = sqlseam.ORIG_CONNECT(path)
     try:
         tables = [r[0] for r in con.execute("select name from sqlite_master where type='table' order by name")]
@@ -306,10 +316,10 @@ def _iso_spec(rng, cfg):
         if rng.random() < 0.35:
             spec["meta"]["branch"] = "des"      # the branch a model isotherm describes is content
         if rng.random() < 0.5:
-            spec["model"] = {"name": "Langmuir", "rmse": 0.0125, "parameters": {"K": rng.choice([1.5, 2.25, 1.0 / 7.0]), "n_m": 3.5},
+            spec["model"] = {"name": "Langmuir", "rmse": 0.0125, "parameters": {"K": rng.choice([1.5, 2.25, 1.0 / 7.0, -0.5]), "n_m": 3.5},
                              "pressure_range": [0.1, 5.0], "loading_range": [0.25, 3.0]}
         else:
-            spec["model"] = {"name": "Henry", "rmse": 0.5, "parameters": {"K": rng.choice([0.75, 1.25])},
+            spec["model"] = {"name": "Henry", "rmse": 0.5, "parameters": {"K": rng.choice([0.75, 1.25, -2.5])},
                              "pressure_range": [0.1, 2.0], "loading_range": [0.125, 2.5]}
     return spec
 
@@ -327,6 +337,7 @@ def make_cfg(rng, tier):
     }
     if n_files == 2:
         cfg["files"]["F2"] = rng.choices(["bare", "full"], [75, 25])[0]
+    cfg["replace_p"] = rng.choice([0.0, 0.0, 0.04])
     if rng.random() < 0.3:
         names = rng.sample(ODD_FILE_NAMES, 2)
         cfg["fnames"] = {"F1": names[0], "F2": names[1]}
@@ -363,6 +374,10 @@ def gen_op(rng, cfg, models, favourites):
         present = sorted(n for n in fm.ads if n in UNIVERSE["ads"])
         op["name"] = rng.choice(present) if present and rng.random() < 0.7 else rng.choice(UNIVERSE["ads"])
         op["by"] = rng.choice(["name", "object"])
+        if rng.random() < 0.12:
+            # a key that is nobody's NAME in the file - an alias of a stored gas, or another spelling of it
+            op["name"] = rng.choice(["vfa", "alpha gas", "vfg", "gamma-x", "N2", "n2", "CO2", "vfalpha", "NITROGEN"])
+            op["by"] = "name"
     elif o == "material_to_db":
         op["mat"] = _mat_spec(rng, open_values=cfg["open_domain"] and rng.random() < 0.2)
         op["overwrite"] = rng.random() < 0.3
@@ -508,6 +523,18 @@ class Run:
             self.restarts[op["session"]] += 1
             self.count("restart")
             self.events.append(["restart", op["session"]])
+            return
+        if op["op"] == "file_replace":
+            f = op["db"]
+            tpl = self.cfg["files"][f]
+            tmp = self.dbmap[f] + ".new"
+            shutil.copyfile(self.ctx.memo["templates"][tpl], tmp)
+            os.replace(tmp, self.dbmap[f])
+            self.models[f] = new_file_model(self.ctx, tpl)
+            self.dumps[f] = dump_db(self.dbmap[f])
+            self.touched = {k: v for k, v in self.touched.items() if not any(t[2] == f for t in v)}
+            self.count("probe:file-replaced-at-same-path")
+            self.events.append(["file_replace", f])
             return
         if op["op"] == "isotherm_bulk_to_db":
             return self.step_bulk(op)
@@ -868,6 +895,9 @@ def execute(ctx, cfg, rng=None, steps=None):
                     op = {"op": "isotherm_bulk_to_db", "db": "F1", "session": "A", "n": rng.randint(101, 125), "iso": spec}
                 elif rng.random() < cfg["restart_p"]:
                     op = {"op": "restart", "session": "A" if cfg["n_sessions"] == 1 else rng.choice(["A", "B"])}
+                elif cfg.get("replace_p") and rng.random() < cfg["replace_p"]:
+                    # the file at this path is removed and a freshly created one takes its place (sessions stay alive)
+                    op = {"op": "file_replace", "db": rng.choice(sorted(cfg["files"]))}
                 else:
                     op = gen_op(rng, cfg, run.models, favourites)
                 executed.append(op)
